@@ -287,11 +287,31 @@ def gen_history(r: random.Random, task, p=0.2):
 
 
 # ------------------------------------------------------------------------- configurations
+_DEFAULTS = {}
+
+
+def config_defaults(optimizer):
+    """Fields of the optimizer's config model that have defaults and are absent from the base dict."""
+    if optimizer not in _DEFAULTS:
+        import pyvolutionary as pv
+        b = base_configs()[optimizer]
+        cls = getattr(pv, b["config_class"])
+        out = {}
+        for n, f in cls.model_fields.items():
+            if n in b["params"] or n in COMMON:
+                continue
+            d = f.default
+            if isinstance(d, (bool, int, float)) or (isinstance(d, list) and d):
+                out[n] = d
+        _DEFAULTS[optimizer] = out
+    return _DEFAULTS[optimizer]
+
+
 def perturb_value(r: random.Random, v):
     if isinstance(v, bool):
-        return v
+        return not v
     if isinstance(v, int):
-        return v + r.choice([-1, 1])
+        return v + r.choice([-2, -1, -1, 1, 1, 2, 3])
     if isinstance(v, float):
         return _rnd(v * r.choice([0.7, 1.3]))
     if isinstance(v, list) and v:
@@ -303,11 +323,14 @@ def perturb_value(r: random.Random, v):
 
 
 def gen_config(r: random.Random, optimizer: str, validate, *, cycles=(1, 12), perturb_p=0.3,
-               pop_scales=(1, 1, 1.5, 2, 3), stop_opts=True):
+               pop_scales=(1, 1, 1.5, 2, 3), stop_opts=True, any_pop_p=0.3):
     """``validate(optimizer, params)`` builds the real config (raises if the validators reject)."""
     base = copy.deepcopy(base_configs()[optimizer]["params"])
     p = dict(base)
     p["population_size"] = int(base["population_size"] * r.choice(pop_scales))
+    if any_pop_p and r.random() < any_pop_p:
+        # any size at or above the documented scale (odd sizes, group remainders)
+        p["population_size"] = base["population_size"] + r.randrange(0, 2 * base["population_size"] + 1)
     lo, hi = cycles
     p["max_cycles"] = r.choice([1, 2, 3]) if r.random() < 0.25 else r.randrange(lo, hi + 1)
     if stop_opts:
@@ -318,11 +341,17 @@ def gen_config(r: random.Random, optimizer: str, validate, *, cycles=(1, 12), pe
         p["fitness_error"] = None
     perturbed = []
     if r.random() < perturb_p:
-        keys = sorted(k for k in base if k not in COMMON)
+        defaults = config_defaults(optimizer)
+        # fields the fixtures leave at their defaults select code paths no test reaches: weigh them up
+        keys = sorted(k for k in base if k not in COMMON) + 3 * sorted(defaults)
         r.shuffle(keys)
-        for k in keys[:r.randrange(1, 3)]:
+        for k in list(dict.fromkeys(keys))[:r.randrange(1, 3)]:
             q = dict(p)
-            q[k] = perturb_value(r, base[k])
+            cur = base[k] if k in base else defaults[k]
+            if k in defaults and isinstance(cur, int) and not isinstance(cur, bool) and 0 <= cur <= 3:
+                q[k] = r.choice([v for v in range(0, 5) if v != cur])       # small enumerations ("strategy" switches)
+            else:
+                q[k] = perturb_value(r, cur)
             try:
                 validate(optimizer, q)
             except Exception:
@@ -361,11 +390,15 @@ def gen_faults(r: random.Random, mode: str, workers: int, horizon: int = 3000, p
     return out
 
 
-def gen_sched(r: random.Random):
+def gen_sched(r: random.Random, p_line: float = 0.0):
     pol = r.choice(["sticky", "sticky", "uniform", "roundrobin", "skewed", "lifo"])
     s = {"policy": pol, "seed": r.randrange(1 << 30)}
     if pol == "sticky":
         s["p"] = r.choice([0.5, 0.8, 0.95])
+    if p_line and r.random() < p_line:
+        s["granularity"] = "line"
+        s["preemptions"] = r.choice([1, 2, 4])
+        s["line_horizon"] = r.choice([500, 2000, 6000])
     return s
 
 
@@ -377,14 +410,14 @@ def gen_scenario(seed: int, optimizer: str, family: str, mode: str, validate, *,
     cyc = opts.get("cycles", (1, 12) if tier == "quick" else (1, 40))
     cfg, perturbed = gen_config(r, optimizer, validate, cycles=cyc, perturb_p=opts.get("perturb_p", 0.3),
                                 pop_scales=opts.get("pop_scales", (1, 1, 1.5, 2, 3)),
-                                stop_opts=opts.get("stop_opts", True))
+                                stop_opts=opts.get("stop_opts", True), any_pop_p=opts.get("any_pop_p", 0.3))
     workers = None
     if mode != "serial":
         workers = r.choice([1, 2, 3, 4, 4, 8, 16]) if r.random() < 0.8 else r.randrange(1, 17)
     desc = {
         "seed": seed, "optimizer": optimizer, "config": cfg, "perturbed": perturbed, "task": task,
         "mode": mode, "workers": workers,
-        "sched": gen_sched(r) if mode != "serial" else {"policy": "fifo"},
+        "sched": gen_sched(r, opts.get("p_line", 0.0) if mode == "thread" else 0.0) if mode != "serial" else {"policy": "fifo"},
         "faults": gen_faults(r, mode, workers or 0, p_none=opts.get("p_no_faults", 0.45), kinds=opts.get("fault_kinds")),
     }
     desc["history"] = gen_history(r, task, p=opts.get("p_history", 0.2))
